@@ -60,6 +60,8 @@ func quotes(ss []string) string {
 }
 
 func sortedQuotes(ss []string) string {
+	// Sort a copy. Callers pass slices shared with other goroutines (built-in tables, user config).
+	ss = append([]string(nil), ss...)
 	sort.Strings(ss)
 	return quotes(ss)
 }
